@@ -18,7 +18,8 @@ THEOREMS = ['C19.tables_ok', 'C19.classes_ok', 'C19.conservation', 'C19.conserva
             'C19.queueMsg_accepted', 'C19.priority', 'C19.fast_first', 'C19.fifo', 'C19.fifo_run',
             'C19.rates', 'C19.throttle_join_rate', 'C19.throttle_join_rate_fixed', 'C19.quit_drains',
             'C19.takeMsg_recursive', 'C19.filter_no_stall_fast', 'C19.filter_no_stall_queue',
-            'C19.lost_only_tagged', 'C19.tagged_were_sent', 'C19.no_stall', 'C19.quit_completes']
+            'C19.lost_only_tagged', 'C19.tagged_were_sent', 'C19.no_stall', 'C19.quit_completes',
+            'C19.no_loss_fresh_objects', 'C19.conservation_fresh_objects']
 TRUSTED = ['Lean 4.33.0 kernel; axioms ⊆ {propext, Classical.choice, Quot.sound}',
            'harness/extractors/ircqueue.py (_high, _low, rate-limited command, echo-emulated commands → Gen/IrcQueue.lean)',
            'harness/c19.py generators, instrumentation (virtual clock, stub driver, recording outFilter callbacks), canonicalisation; hex line protocol',
@@ -727,7 +728,7 @@ def reuse_witness_status():
 def run(ctx):
     build = leanbuild.ensure(PROPERTY, THEOREMS, thorough=ctx.thorough, extractors=['IrcQueue'])
     if ctx.thorough:
-        n, n_reuse, maxlen = 60000, 3000, 90
+        n, n_reuse, maxlen = 45000, 2500, 90
     else:
         n, n_reuse, maxlen = 5200, 300, 60
     cases, lines, spans = explore('c19', n, n_reuse, maxlen, load_corpus(), budget=(840.0 if ctx.thorough else 75.0))
